@@ -156,10 +156,20 @@ def namesSafe (fp : PFilePatch) : Bool :=
 def applyOne (st : St) (fs : FS) (cfg : Cfg) (index : Nat) (entry : Series.Entry) (fp : PFilePatch) :
     Except Fail (St × Bool) :=
   if !namesSafe fp then .error .err else
-  match choose st.mem fs fp.old fp.new with
+  -- a renaming patch loads its new file first: an error must leave the files as they were
+  let pre : Except Fail Mem :=
+    if fp.rename then
+      match fp.new with
+      | none => .error .panic
+      | some newName => (match getOrLoad st.mem fs newName with | .ok (m, _) => .ok m | .error e => .error e)
+    else .ok st.mem
+  match pre with
+  | .error e => .error e
+  | .ok mem0 =>
+  match choose mem0 fs fp.old fp.new with
   | none => .error .panic
   | some target =>
-    match getOrLoad st.mem fs target with
+    match getOrLoad mem0 fs target with
     | .error e => .error e
     | .ok (mem, file) =>
       let dir : Dir := if entry.reverse then .rev else .fwd
